@@ -524,7 +524,7 @@ impl<const L: usize> LogModel<L> {
     }
 }
 
-// @family prop=C06,C17 name=c06_byte_stream macro=c06_byte_stream n=8 quick=4 thorough=7 tseeded=0 plus=4 timeout=3000 stub=1
+// @family prop=C06,C17,C04,C05 name=c06_byte_stream macro=c06_byte_stream n=8 quick=4 thorough=7 tseeded=0 plus=4 timeout=3000 stub=1
 // @about slice N = number of symbolic bytes: any listened channel, every controller output symbolic, gate low; the parser is first driven into an arbitrary state by a symbolic 2-byte prefix fed to both the receiver and the MIDI 1.0 reference decoder; then N bytes, each any of 0..=255, are fed one at a time through the real parse() and after EVERY byte the log of note-handler calls (which handler, which note, in which order; velocity), pitch bend, all 7 controllers and the note-state fields equal those of the reference (running status, status aborts partial message, 0xF0..0xF7 cancel running status, sysex payload ignored, 0xF8..0xFF transparent anywhere, other channels and unsupported types ignored). Stubs: handle_note_on / handle_note_off replaced by call loggers (their effect on the note state is decided from any state by c04_*_step). Kani's panic/overflow/index checks cover 'never panics'
 macro_rules! c06_byte_stream {
     ($name:ident, $n:expr, $u:expr) => {
